@@ -433,11 +433,43 @@ def g_regex_big(rng):
     if k == 3:
         return rng.choice([b"(a{1000}){1000}", b"((a{1000}){1000}){1000}", b"(((a{1000}){1000}){1000}){1000}", b"a{100000}", b"a{100001}",
                            b"a{0,4090}", b"a{0,4100}", b"(a{90}){90}", b"a{4000,}", b"a{2147483647}", b"a{2147483648}", b"a{1,2147483647}"])
+    if k == 4 and rng.chance(1, 2):
+        c, b = (wrap_pairs(rng, rng.choice([16, 31, 32, 32]), 1) or [(8192, 524288)])[0]
+        return rng.choice(wrap_patterns(c, b))
     if k == 4:
         return b"a?" * rng.choice([100, 1000, 1024]) + b"b"
     if k == 5:
         return b"(a*)*" * rng.choice([10, 100, 400])
     return b"[a-z]" * rng.choice([100, 400, 409, 410, 1000])
+
+
+RE_LIMIT = 8192          # REGEX_MAX_INSTRUCTIONS (the patterns below only have to straddle it: the model knows the real value)
+RE_MAXB = 1000009        # the largest interval bound parse_interval lets through (the test precedes the last digit)
+
+
+def wrap_pairs(rng, width, n, slack=RE_LIMIT - 200):
+    """(c, b): an inner size c <= RE_LIMIT + 1 and an outer bound b <= RE_MAXB whose product is far above the instruction limit
+    but congruent to -8 .. slack modulo 2^width: an estimate computed in `width` bits comes out small and passes the limit"""
+    out, M, tries = [], 1 << width, 0
+    while len(out) < n and tries < 20000:
+        tries += 1
+        b = rng.range(max(2, (M >> 13) - 1), RE_MAXB) if M > (RE_LIMIT + 1) * 4 else rng.range(2, 70000)
+        k = rng.range(1, max(1, ((RE_LIMIT + 1) * b) // M))
+        c = -(-(k * M) // b)                                   # ceil: c * b is just above k * 2^width
+        for cc in (c, c - 1):
+            r = (cc * b) % M
+            if 1 <= cc <= RE_LIMIT + 1 and cc * b > 4 * RE_LIMIT and (r <= slack or r >= M - 8):
+                out.append((cc, b)); break
+    return out
+
+
+def wrap_patterns(c, b):
+    """the quantifier shapes whose estimate multiplies a bound with the size of the quantified sub-program"""
+    pats = [b"a{%d}{%d}" % (c, b), b"a{%d}{%d,}" % (c, b), b"a{%d}{0,%d}" % (max(c - 1, 1), b), b"a{%d}{%d,%d}" % (c, b, b),
+            b"a{%d}{%d,%d}" % (c, max(b - 1, 0), b)]
+    if c > 2:
+        pats += [b"(a{%d}){%d}" % (c - 2, b), b"(a{%d}){%d,}" % (c - 2, b), b"[a-c]{%d}{%d}" % (c, b)]
+    return pats
 
 
 # bytes at which an 8 bit counter / a signed char / an ASCII class test changes its mind
@@ -569,6 +601,17 @@ def sweep(rng, full):
             L.append("re %s %s" % (hx(pat), hx(b"aaa")))
     for a, b in ((90, 91), (64, 128), (2, 4095), (2, 4096), (4096, 2), (1000, 1000), (100000, 100000), (0, 100000), (256, 32)):
         L.append("re %s %s" % (hx(b"(a{%d}){%d}" % (a, b)), hx(b"aa")))
+    # size estimate arithmetic: nested interval quantifiers whose TRUE size is far beyond the limit while the product taken
+    # modulo 2^16 / 2^31 / 2^32 / 2^64 is small (an estimate in a narrower type would let them through and compile_context
+    # would write past the program buffer).  Outer bounds use the whole range the parser accepts (<= 1000009).
+    for pat in (b"a{8192}{524288}", b"(a{8192}){524225}", b"a{8192}{524288,}", b"a{8192}{0,524288}", b"a{4096}{1000000}", b"a{8193}{262144}",
+                b"a{8192}{262144}", b"a{8192}{262145}", b"(a{8191}){262144}", b"a{8192}{8}", b"a{256}{256}", b"(a{254}){256}", b"a{65536}{65536}",
+                b"a{1000009}{1000009}", b"(a{1000009}){1000009}", b"((a{1000009}){1000009}){1000009}", b"a{2}{1000009}", b"a{0,1000009}{0,1000009}"):
+        L.append("re %s %s" % (hx(pat), hx(b"aa")))
+    for width in (16, 31, 32):
+        for c, b in wrap_pairs(rng, width, 4 if not full else 40):
+            for pat in wrap_patterns(c, b):
+                L.append("re %s %s" % (hx(pat), hx(b"a")))
     for k in (0, 1, 31, 32, 33, 63, 64, 65, 127, 128, 129):
         for n in (2 * k, 2 * k + 2, 2 * k + 4, 64, 66, 200):
             L.append("rem %s %s %d" % (hx(b"^" + b"(a)" * k + b"b"), hx(b"a" * k + b"b"), n))
